@@ -20,14 +20,19 @@
 package main
 
 import (
+	"bufio"
+	"bytes"
 	"context"
 	"fmt"
+	"io"
 	"os"
+	"os/exec"
 	"path/filepath"
 	"sort"
 	"strconv"
 	"strings"
 	"sync"
+	"time"
 
 	"github.com/blugelabs/bluge"
 	"github.com/blugelabs/bluge/index"
@@ -37,6 +42,13 @@ import (
 )
 
 type h struct{}
+
+// sink is what the executing side reports to; *hlib.Stats in process, a line printer in the child process
+type sink interface {
+	Count(key string)
+	CountN(key string, n int)
+	Case(key string, nontrivial bool)
+}
 
 func (h) Rule() string {
 	return "histories of 1–25 batches over an id space of 1–12 ids (20%: 16–48 ids), batch sizes 0–40 capped by the id space, " +
@@ -144,6 +156,7 @@ func docsString(ds []doc, sep string) string {
 type segRec struct {
 	sid       uint64
 	persisted bool
+	seg       segment.Segment // the segment object; its documents are read later, on the main goroutine
 	docs      []doc
 	deleted   []uint32
 }
@@ -177,12 +190,16 @@ func (r *rootRec) String() string {
 type tracer struct {
 	mu        sync.Mutex
 	active    bool // a case is open (otherwise events are ignored)
+	recording bool // roots are recorded as events (false while the writer is closing)
+	lateSnaps []*index.Snapshot
 	events    []*rootRec
 	lastEpoch uint64
 	cache     map[segment.Segment][]doc // a segment object is immutable: read it once
+	held      map[segment.Segment]bool  // segment objects the tracer holds a reference on until they are read
 	grabs     int
 	acks      int
 	corrupt   int
+	retried   int
 }
 
 var tr = &tracer{}
@@ -190,28 +207,67 @@ var tr = &tracer{}
 func (t *tracer) reset(active bool) {
 	t.mu.Lock()
 	t.active = active
+	t.recording = active
+	t.lateSnaps = nil
 	t.events = nil
 	t.lastEpoch = 0
 	t.cache = map[segment.Segment][]doc{}
+	t.held = map[segment.Segment]bool{}
 	t.mu.Unlock()
 }
 
+// readSeg reads the documents of a segment object (once). Main goroutine only: the trace callback never reads
+// stored fields itself, so the harness adds no concurrent reader to a segment.
 func (t *tracer) readSeg(seg segment.Segment) []doc {
-	if ds, ok := t.cache[seg]; ok {
+	t.mu.Lock()
+	ds, ok := t.cache[seg]
+	t.mu.Unlock()
+	if ok {
 		return ds
 	}
 	n := seg.Count()
-	ds := make([]doc, 0, n)
-	for i := uint64(0); i < n; i++ {
-		var acc storedAcc
-		_ = seg.VisitStoredFields(i, acc.visit)
-		d, ok := acc.digest()
-		if !ok {
-			t.corrupt++
+	bad := 0
+	retried := 0
+	for try := 0; try < 4; try++ {
+		// instrumentation read of an immutable segment: a faulty read (see the ice v2 finding) is retried and counted
+		ds = make([]doc, 0, n)
+		bad = 0
+		func() {
+			defer func() {
+				if e := recover(); e != nil {
+					bad++
+				}
+			}()
+			for i := uint64(0); i < n; i++ {
+				var acc storedAcc
+				if err := seg.VisitStoredFields(i, acc.visit); err != nil {
+					bad++
+				}
+				d, ok := acc.digest()
+				if !ok {
+					bad++
+				}
+				ds = append(ds, d)
+			}
+		}()
+		if bad == 0 {
+			break
 		}
-		ds = append(ds, d)
+		retried++
+		time.Sleep(20 * time.Millisecond)
 	}
+	t.mu.Lock()
 	t.cache[seg] = ds
+	t.corrupt += bad
+	t.retried += retried
+	wasHeld := t.held[seg]
+	delete(t.held, seg)
+	t.mu.Unlock()
+	if wasHeld {
+		if rc, ok := seg.(interface{ DecRef() error }); ok {
+			_ = rc.DecRef()
+		}
+	}
 	return ds
 }
 
@@ -233,6 +289,10 @@ func (t *tracer) trace(w *index.Writer, kind string, snap *index.Snapshot, x uin
 	default:
 		return
 	}
+	if !t.recording {
+		t.lateSnaps = append(t.lateSnaps, snap)
+		return
+	}
 	rec := &rootRec{epoch: snap.VerifEpoch(), creator: snap.VerifCreator()}
 	for _, ss := range snap.Segments() {
 		sr := segRec{sid: ss.ID()}
@@ -244,7 +304,14 @@ func (t *tracer) trace(w *index.Writer, kind string, snap *index.Snapshot, x uin
 			if p, ok := seg.(interface{ Persisted() bool }); ok {
 				sr.persisted = p.Persisted()
 			}
-			sr.docs = t.readSeg(seg)
+			sr.seg = seg
+			if _, done := t.cache[seg]; !done && !t.held[seg] {
+				// keep the segment object open until the main goroutine has read it
+				if rc, ok := seg.(interface{ AddRef() }); ok {
+					rc.AddRef()
+					t.held[seg] = true
+				}
+			}
 		}
 		rec.segs = append(rec.segs, sr)
 	}
@@ -252,11 +319,50 @@ func (t *tracer) trace(w *index.Writer, kind string, snap *index.Snapshot, x uin
 	t.lastEpoch = rec.epoch
 }
 
+// closing: from now on roots are only remembered (for the debug probe), not recorded, and nothing is held
+func (t *tracer) closing() {
+	t.mu.Lock()
+	t.recording = false
+	t.mu.Unlock()
+}
+
+// debug probe (C01_DEBUG=1): after Writer.Close every segment of every root installed during the close must have
+// reference count 0; a negative count is a reference released twice
+func (t *tracer) debugRefsAfterClose() {
+	t.mu.Lock()
+	snaps := t.lateSnaps
+	t.lateSnaps = nil
+	t.mu.Unlock()
+	if len(snaps) > 0 {
+		if f, err := os.OpenFile(os.Getenv("C01_DEBUG"), os.O_APPEND|os.O_CREATE|os.O_WRONLY, 0o644); err == nil {
+			fmt.Fprintf(f, "late roots: %d\n", len(snaps))
+			_ = f.Close()
+		}
+	}
+	for _, sn := range snaps {
+		for i, r := range sn.VerifSegmentRefs() {
+			if r < -1 || (r != -1 && r != 0) {
+				if f, err := os.OpenFile(os.Getenv("C01_DEBUG"), os.O_APPEND|os.O_CREATE|os.O_WRONLY, 0o644); err == nil {
+					fmt.Fprintf(f, "after Close: root e%d (%s) segment #%d refs=%d\n", sn.VerifEpoch(), sn.VerifCreator(), i, r)
+					_ = f.Close()
+				}
+			}
+		}
+	}
+}
+
 func (t *tracer) take() []*rootRec {
 	t.mu.Lock()
-	defer t.mu.Unlock()
 	ev := t.events
 	t.events = nil
+	t.mu.Unlock()
+	for _, e := range ev {
+		for i := range e.segs {
+			if e.segs[i].seg != nil {
+				e.segs[i].docs = t.readSeg(e.segs[i].seg)
+			}
+		}
+	}
 	return ev
 }
 
@@ -292,8 +398,17 @@ func closeCase(out func(string, string)) {
 	if cur == nil {
 		return
 	}
-	_ = hlib.Catch(func() string { _ = cur.w.Close(); return "" })
+	// everything traced so far is read and emitted BEFORE Close; what the introducer installs while the writer
+	// is closing (an in-flight persist) comes after the last reader view and is not part of the stream.
+	// (Reading a segment after Close is not safe even with a reference held: see the report — a persist that is
+	// in flight when closeCh fires gets its freshly loaded segments closed by prepareIntroducePersist's defer
+	// although the introducer has put them into the root.)
 	emitEvents(out)
+	tr.closing()
+	_ = hlib.Catch(func() string { _ = cur.w.Close(); return "" })
+	if os.Getenv("C01_DEBUG") != "" {
+		tr.debugRefsAfterClose()
+	}
 	tr.reset(false)
 	if cur.dir != "" {
 		_ = os.RemoveAll(cur.dir)
@@ -446,7 +561,7 @@ func emitEvents(out func(string, string)) {
 	}
 }
 
-func runBatches(opss []string, out func(string, string), st *hlib.Stats) {
+func runBatches(opss []string, out func(string, string), st sink) {
 	seen := tr.epoch()
 	errs := make([]error, len(opss))
 	var wg sync.WaitGroup
@@ -572,7 +687,8 @@ func readState(k int) string {
 
 // ---------------------------------------------------------------- Exec
 
-func (h) Exec(line string, out func(string, string), st *hlib.Stats, work string) {
+// execReal runs one script line against the real code (in the child process)
+func execReal(line string, out func(string, string), st sink, work string) {
 	w := strings.Fields(line)
 	if len(w) == 0 {
 		return
@@ -607,7 +723,18 @@ func (h) Exec(line string, out func(string, string), st *hlib.Stats, work string
 		}
 		runBatches(opss, out, st)
 		res := hlib.Catch(func() string { return readState(cur.k) })
-		out(fmt.Sprintf("read k=%d", cur.k), res)
+		tag := ""
+		if faultyView(res) {
+			// is the fault transient? (a second look at the same, immutable reader state)
+			st.Count("reader-view-faulty")
+			for try := 0; try < 3 && tag == ""; try++ {
+				time.Sleep(30 * time.Millisecond)
+				if again := hlib.Catch(func() string { return readState(cur.k) }); !faultyView(again) {
+					tag = " transient"
+				}
+			}
+		}
+		out(fmt.Sprintf("read k=%d cfg=%s%s", cur.k, cur.cfg, tag), res)
 		cur.history += "\n" + line
 		st.Case(cur.cfg+cur.history, rest != "-" && rest != "")
 	case "end":
@@ -616,16 +743,177 @@ func (h) Exec(line string, out func(string, string), st *hlib.Stats, work string
 			return
 		}
 		tr.mu.Lock()
-		g, a, c := tr.grabs, tr.acks, tr.corrupt
-		tr.grabs, tr.acks, tr.corrupt = 0, 0, 0
+		g, a, c, rt := tr.grabs, tr.acks, tr.corrupt, tr.retried
+		tr.grabs, tr.acks, tr.corrupt, tr.retried = 0, 0, 0, 0
 		tr.mu.Unlock()
+		st.CountN("trace-segment-read-retried", rt)
 		st.CountN("trace:grab", g)
 		st.CountN("trace:persisted", a)
 		st.CountN("stored-fields-corrupt", c)
 		closeCase(out)
 		out(line, "closed")
+	case "selftest-crash":
+		// harness self-test: a panic on a background goroutine must come out as a crash observation
+		go func() { panic("selftest") }()
+		time.Sleep(2 * time.Second)
+		out(line, "survived")
 	default:
 		out(line, "bad-op")
+	}
+}
+
+// faultyView: the reader could not deliver stored fields (error, panic, or a document whose stored fields do not
+// belong together)
+func faultyView(v string) bool {
+	return strings.HasPrefix(v, "err") || strings.HasPrefix(v, "panic") || strings.Contains(v, ".-") ||
+		strings.Contains(v, "wrong-id") || strings.Contains(v, "-1.")
+}
+
+// ---------------------------------------------------------------- process isolation
+//
+// The real writer runs background goroutines (persister, merger); a panic there kills the process. Every script
+// line is therefore executed in a child process (`h_c01 child <work>`); a crash becomes the observation
+// "crash <line> ## crash:<class>", the rest of that case is skipped and a fresh child serves the next case.
+
+type childProc struct {
+	cmd    *exec.Cmd
+	in     io.WriteCloser
+	out    *bufio.Reader
+	stderr *bytes.Buffer
+}
+
+var child *childProc
+var skipping bool
+
+func startChild(work string) (*childProc, error) {
+	cmd := exec.Command(os.Args[0], "child", work)
+	in, err := cmd.StdinPipe()
+	if err != nil {
+		return nil, err
+	}
+	op, err := cmd.StdoutPipe()
+	if err != nil {
+		return nil, err
+	}
+	eb := &bytes.Buffer{}
+	cmd.Stderr = eb
+	if err := cmd.Start(); err != nil {
+		return nil, err
+	}
+	return &childProc{cmd: cmd, in: in, out: bufio.NewReaderSize(op, 1<<20), stderr: eb}, nil
+}
+
+func classifyCrash(stderr string) string {
+	switch {
+	case strings.Contains(stderr, "ice/v2") && (strings.Contains(stderr, "getDocStoredOffsets") || strings.Contains(stderr, "getDocStoredMetaAndUnCompressed")):
+		return "ice-v2-stored-chunk-buffer"
+	case strings.Contains(stderr, "panic:"):
+		i := strings.Index(stderr, "panic:")
+		l := stderr[i:]
+		if j := strings.IndexByte(l, '\n'); j >= 0 {
+			l = l[:j]
+		}
+		if len(l) > 120 {
+			l = l[:120]
+		}
+		return strings.ReplaceAll(l, " ", "_")
+	case strings.Contains(stderr, "fatal error:"):
+		return "fatal-error"
+	}
+	return "exit"
+}
+
+func (h) Exec(line string, out func(string, string), st *hlib.Stats, work string) {
+	isCase := strings.HasPrefix(line, "case ")
+	if w := strings.Fields(line); isCase && len(w) > 1 {
+		lastCfg = w[1]
+	}
+	if skipping && !isCase {
+		st.Count("lines-skipped-after-crash")
+		return
+	}
+	skipping = false
+	if child == nil {
+		c, err := startChild(work)
+		if err != nil {
+			out(line, "err:child")
+			return
+		}
+		child = c
+	}
+	_, err := io.WriteString(child.in, line+"\n")
+	for err == nil {
+		var l string
+		l, err = child.out.ReadString('\n')
+		if err != nil {
+			break
+		}
+		l = strings.TrimSuffix(l, "\n")
+		f := strings.SplitN(l, "\t", 3)
+		switch f[0] {
+		case "D":
+			return
+		case "P":
+			if len(f) == 3 {
+				out(f[1], f[2])
+			}
+		case "C":
+			if len(f) == 3 {
+				n, _ := strconv.Atoi(f[1])
+				st.CountN(f[2], n)
+			}
+		case "K":
+			if len(f) == 3 {
+				st.Case(f[2], f[1] == "1")
+			}
+		}
+	}
+	// the child died while executing this line
+	_ = child.in.Close()
+	_ = child.cmd.Wait()
+	cls := classifyCrash(child.stderr.String())
+	crashes++
+	_ = os.WriteFile(filepath.Join(work, fmt.Sprintf("c01_crash_%d.txt", crashes)), child.stderr.Bytes(), 0o644)
+	child = nil
+	skipping = true
+	st.Count("crash:" + cls)
+	cfg := ""
+	if w := strings.Fields(line); isCase && len(w) > 1 {
+		cfg = w[1]
+	} else {
+		cfg = lastCfg
+	}
+	out("crash cfg="+cfg+" "+line, "crash:"+cls)
+}
+
+var lastCfg string
+var crashes int
+
+type printSink struct{ w *bufio.Writer }
+
+func (p printSink) Count(key string)         { fmt.Fprintf(p.w, "C\t1\t%s\n", key) }
+func (p printSink) CountN(key string, n int) { fmt.Fprintf(p.w, "C\t%d\t%s\n", n, key) }
+func (p printSink) Case(key string, nt bool) {
+	b := "0"
+	if nt {
+		b = "1"
+	}
+	fmt.Fprintf(p.w, "K\t%s\t%s\n", b, strings.ReplaceAll(key, "\n", " / "))
+}
+
+func childMain(work string) {
+	index.SetVerifTrace(tr.trace)
+	in := bufio.NewScanner(os.Stdin)
+	in.Buffer(make([]byte, 1<<20), 1<<28)
+	w := bufio.NewWriterSize(os.Stdout, 1<<20)
+	ps := printSink{w}
+	for in.Scan() {
+		line := in.Text()
+		execReal(line, func(op, res string) {
+			fmt.Fprintf(w, "P\t%s\t%s\n", strings.ReplaceAll(op, "\t", " "), strings.ReplaceAll(res, "\t", " "))
+		}, ps, work)
+		fmt.Fprintf(w, "D\n")
+		w.Flush()
 	}
 }
 
@@ -635,7 +923,7 @@ func (h) Gen(r *hlib.Rand, tier string, scale int, emit func(string)) {
 	ncases := 240 * scale
 	maxBatches := 25
 	if tier == "thorough" {
-		ncases = 6000 * scale
+		ncases = 3000 * scale
 	}
 	dirs := []string{"mem", "fs"}
 	vers := []string{"v1", "v2"}
@@ -735,6 +1023,9 @@ func (h) Gen(r *hlib.Rand, tier string, scale int, emit func(string)) {
 }
 
 func main() {
-	index.SetVerifTrace(tr.trace)
+	if len(os.Args) >= 3 && os.Args[1] == "child" {
+		childMain(os.Args[2])
+		return
+	}
 	hlib.Main(h{})
 }
